@@ -472,7 +472,7 @@ def _interp(ops):
                 w = m.w
                 k = 1 + op[4] % 40
                 # "huge": indices far beyond anything a frame can have (sys.maxsize, 2**64, ...) are out of range too
-                huge = [2 ** 63 - 1, 2 ** 63, 2 ** 64, 2 ** 100, 10 ** 30, 2 ** 31, 2 ** 32][k % 7]
+                huge = [2 ** 63 - 1, 2 ** 63, 2 ** 64, 2 ** 100, 10 ** 30][k % 5]
                 bad = {"-1": -1, "w": w, "w+k": w + k, "-k": -k, "huge": huge, "-huge": -huge}[op[3]]
                 good = op[4] % w
                 strict = (IndexError,)
